@@ -121,11 +121,16 @@ impl MinCostFlowSolver {
             .vehicle_types
             .iter()
             .map(|vehicle_type| {
+                let total_distance = total_distances[&vehicle_type].in_meter().unwrap();
                 (
                     vehicle_type,
-                    1.0 // x% of the maintenance limit is used
-                        * self.config.maintenance.maximal_distance.in_meter().unwrap() as f32
-                        / total_distances[&vehicle_type].in_meter().unwrap() as f32,
+                    if total_distance == 0 {
+                        f32::INFINITY // no distance to cover, so no maintenance slot is needed
+                    } else {
+                        1.0 // x% of the maintenance limit is used
+                            * self.config.maintenance.maximal_distance.in_meter().unwrap() as f32
+                            / total_distance as f32
+                    },
                 )
             })
             .collect();
